@@ -29,3 +29,4 @@ open Nitime.C08.Props
 #print axioms partial_le_one
 #print axioms mt_coherence_le_one
 #print axioms mt_self_coherence_one
+#print axioms welch_partial_le_one
